@@ -836,7 +836,9 @@ class TimedStore(typing.Generic[KT]):
             )
             return
 
-        asyncio.get_event_loop().call_soon(callback, entry, address)
+        # notify immediately: a deferred notification could be overtaken by a new offer
+        # or subscribe for the same entry that is handled in the same loop iteration
+        callback(entry, address)
 
     def entries(self) -> typing.Iterator[KT]:
         return itertools.chain.from_iterable(x.keys() for x in self.store.values())
